@@ -38,3 +38,11 @@ func WithDeadlineCause(parent context.Context, t time.Time, cause error) (contex
 	ctx, cancel := context.WithDeadlineCause(parent, t, cause)
 	return ctx, func() { simrt.Yield("ctx.cancel"); cancel() }
 }
+
+// AfterFunc: the goroutine the standard library starts for f once ctx is done becomes a simulator task
+// (created now, pending until then), like a time.AfterFunc callback.
+func AfterFunc(ctx context.Context, f func()) (stop func() bool) {
+	rec := &simrt.TimerRec{Site: "context.AfterFunc", IsFunc: true}
+	cb := simrt.AfterFuncTask("context.AfterFunc", rec, f)
+	return context.AfterFunc(ctx, cb)
+}
